@@ -32,10 +32,10 @@ func pool() []vegeta.Result {
 		{Seq: 3, Code: 0, Timestamp: t0.Add(-time.Second), Latency: math.MaxInt64 / 8, Error: "e2"}, // early request, ends last
 		{Seq: 4, Code: 399, Timestamp: t0, Latency: 7 * time.Millisecond, BytesIn: 7, BytesOut: 1},     // same timestamp as #0
 		{Seq: 5, Code: 400, Timestamp: t0.Add(3 * time.Second), Latency: 2 * time.Second, Error: "e1"}, // duplicate error text
-		{Seq: 6, Code: 199, Timestamp: t0.Add(2 * time.Second), Latency: 5 * time.Millisecond, Error: "199 weird"},
+		{Seq: 6, Code: 199, Timestamp: t0.Add(2 * time.Second), Latency: 5 * time.Millisecond, Error: "e1 "}, // differs from "e1" by a trailing blank only (a status line with an empty reason phrase): a distinct text
 		// status codes that are not three digits wide (foreign or crafted result files, library users): 20 and 3000
 		// are no successes although they start with 2 / 3
-		{Seq: 7, Code: 20, Timestamp: t0.Add(time.Second), Latency: time.Millisecond, Error: "e20"},
+		{Seq: 7, Code: 20, Timestamp: t0.Add(time.Second), Latency: time.Millisecond, Error: "\n"}, // a text of white space only is a text
 		{Seq: 8, Code: 3000, Timestamp: t0.Add(time.Second), Latency: time.Millisecond},
 		// an error text on a success status (e.g. a body cut short, as another producer may record it), carried by no failed result
 		{Seq: 9, Code: 200, Timestamp: t0.Add(time.Second), Latency: time.Millisecond, BytesIn: 2, Error: "unexpected EOF"},
